@@ -16,7 +16,7 @@ THEOREMS = [P + t for t in (
     "gibbs_trace_one", "gibbs_hermitian", "gibbs_normalised_hermitian",
     "compute_fresh", "compute_idempotent", "compute_repeat",
     "coeff_is_cell", "coeff_sum_tiling", "guarded_term_inactive", "infl_formulas_are_model", "gibbs_ops_symmetric",
-    "total_imaginary_time", "source_orientation",
+    "total_imaginary_time", "source_orientation", "unique_sums_class",
     "eta_fallback_accurate", "corr_fallback_accurate", "matsubara_eta_integrand")]
 TOL = 1e-8
 HYP_TOL = 1e-24          # residuals are squared moduli
@@ -87,6 +87,12 @@ def gen_case(rng, tier, force=None):
         o[1] = o[0]
         if d == 3 and rng.random() < 0.3:
             o[2] = o[0]
+    elif ck == "null":                 # the zero operator with a bath attached
+        o = np.zeros(d)
+    elif ck == "identity":             # a multiple of the identity
+        o = np.full(d, o[0])
+    if "o" in force:                   # prescribed eigenvalues (repeated ones not adjacent, ...)
+        o = np.array(force["o"], dtype=float)
     corr, sd, jw, wmax, wc = make_corr(rng, alpha, T)
     return {"d": d, "n": n, "T": T, "H": H, "o": o, "alpha": alpha, "corr": corr, "jw": jw,
             "wmax": wmax, "wc": wc,
@@ -140,8 +146,16 @@ def correspondence(res, tier, rng, extra_cases=()):
     from oqupy.backends.tempo_backend import TIBaseBackend
     ncase = 24 if tier == "quick" else 90
     cases = list(extra_cases)
+    # forced (not drawn): zero coupling, commuting, and coupling operators with REPEATED eigenvalues
+    # (TIBaseBackend._unique merges equal eigenvalues into one bond index: every member of a class
+    # must be summed) -- adjacent and non-adjacent repeats, dimension 4, the zero operator with a
+    # bath attached, a multiple of the identity
     forced = [{"hkind": "complex", "coupling": "zero"}, {"hkind": "diagonal", "coupling": "generic"},
-              {"hkind": "complex", "coupling": "degenerate", "d": 3}]
+              {"hkind": "complex", "coupling": "degenerate", "d": 3},
+              {"hkind": "diagonal", "coupling": "degenerate", "d": 3, "o": [1.0, -1.0, 1.0], "n": 3},
+              {"hkind": "complex", "coupling": "degenerate", "d": 4, "o": [1.0, 0.0, 0.0, -1.0]},
+              {"hkind": "complex", "coupling": "null", "d": 2, "alpha": 0.4},
+              {"hkind": "complex", "coupling": "identity", "d": 3, "n": 3, "alpha": 0.4}]
     for i in range(ncase):
         cases.append(gen_case(rng, tier, forced[i] if i < len(forced) else None))
     lines, meta = [], []
@@ -174,9 +188,12 @@ def correspondence(res, tier, rng, extra_cases=()):
                   case_line("data", d, n, q, init, tables), case_line("hyp", d, n, q, eye, tables),
                   "cells " + " ".join(rat(float(e)) for e in etas),
                   "dt %s %d" % (rat(case["T"]), n),
-                  "hist %d %d %s" % (n, ncalls, rat(g._dt))]
+                  "hist %d %d %s" % (n, ncalls, rat(g._dt)),
+                  "unique " + " ".join(crat(v) for v in be._ops[0]),
+                  "unique " + " ".join(crat(a) + "&" + crat(b) for a, b in zip(*be._ops[1:]))]
+        uniq = [TIBaseBackend._unique(be._ops[0]), TIBaseBackend._unique(zip(*be._ops[1:]))]
         meta.append((idx, case, real_states, real_data, data2, coeffs, g._dt, ncalls,
-                     [float(t) for t in dyn.times], be.step, len(be.data), states_after, q))
+                     [float(t) for t in dyn.times], be.step, len(be.data), states_after, q, uniq))
         for k in ("system", "coupling", "sd"):
             res.count("%s=%s" % (k, case["desc"][k]))
         res.count("d=%d" % d)
@@ -186,12 +203,22 @@ def correspondence(res, tier, rng, extra_cases=()):
     if len(out) != len(lines):
         raise fw.Infra("driver returned %d lines for %d inputs" % (len(out), len(lines)))
     for (idx, case, real_states, real_data, data2, coeffs, dt, ncalls, times, bstep, blen,
-         states_after, q) in meta:
+         states_after, q, uniq) in meta:
         desc = dict(case["desc"], compute_calls=ncalls)
         d, n = case["d"], case["n"]
-        o_st, o_d1, o_d2, o_hyp, o_cells, o_dt, o_hist = out[idx:idx + 7]
-        if "bad-op" in (o_st, o_d1, o_d2, o_hyp, o_cells, o_dt, o_hist):
-            raise fw.Infra("driver rejected a C11 line: %r" % [lines[idx + i][:80] for i in range(7)])
+        o_st, o_d1, o_d2, o_hyp, o_cells, o_dt, o_hist, o_u0, o_u1 = out[idx:idx + 9]
+        if "bad-op" in (o_st, o_d1, o_d2, o_hyp, o_cells, o_dt, o_hist, o_u0, o_u1):
+            raise fw.Infra("driver rejected a C11 line: %r" % [lines[idx + i][:80] for i in range(9)])
+        # (0) TIBaseBackend._unique vs its model (exact): first occurrences, projection onto the
+        #     classes of equal operator values, every state in exactly one class
+        for which, (ind, proj), got in (("ops[0]", uniq[0], o_u0), ("zip(ops[1:])", uniq[1], o_u1)):
+            proj = np.asarray(proj)
+            want_u = "%s ; %s ; %s" % (
+                " ".join(str(int(i)) for i in ind),
+                " | ".join(" ".join(str(int(x)) for x in row) for row in proj),
+                " ".join(str(int(x)) for x in proj.sum(axis=0)))
+            if want_u != got:
+                res.disagree("TIBaseBackend._unique(%s): code `%s` model `%s`" % (which, want_u, got), desc)
         m_st, m_d1, m_d2 = parse_states(o_st, d), parse_states(o_d1, d), parse_states(o_d2, d)
         sample = {"case": {k: desc[k] for k in ("d", "n", "T", "system", "coupling", "alpha", "sd",
                                                  "compute_calls")}}
@@ -347,14 +374,21 @@ def fixed_commuting_case():
     return case_from_desc(desc)
 
 
-def oracle_commuting(res, case, steps=(2, 3, 5, 8)):
-    """diagonal H: Boltzmann weights of E_i - lambda*o_i^2, the same for every number of steps"""
+def oracle_commuting(res, case, steps=(2, 3, 5, 8), tag=None):
+    """[H, S] = 0 (diagonal H, or H non-diagonal only inside blocks of equal coupling eigenvalues):
+    the exact reduced thermal state is exp(-(H - lambda*S^2)/T)/Z, for every number of steps"""
+    from scipy.linalg import expm
     d = case["d"]
-    lam = reorganisation(case)
-    en = np.diag(case["H"]).real - lam * np.asarray(case["o"]) ** 2
-    w = np.exp(-(en - en.min()) / case["T"])
-    want = np.diag(w / w.sum())
+    lam = reorganisation(case) if case["alpha"] > 0 else 0.0
+    H = np.asarray(case["H"], dtype=complex)
+    S = np.diag(np.asarray(case["o"], dtype=float))
+    assert np.abs(H @ S - S @ H).max() < 1e-14
+    heff = H - lam * S @ S
+    shift = np.linalg.eigvalsh(heff).min()
+    want = expm(-(heff - shift * np.eye(d)) / case["T"])
+    want = want / np.trace(want)
     first = None
+    what = tag or "d=%d sd=%s T=%.3g" % (d, case["desc"]["sd"], case["T"])
     for n in steps:
         g = make_gibbs(case, n=n, epsrel=1e-12)
         g.compute(progress_type="silent")
@@ -363,14 +397,41 @@ def oracle_commuting(res, case, steps=(2, 3, 5, 8)):
                    "reorganisation_energy": lam, "expected_populations": np.diag(want).real.tolist(),
                    "got_populations": np.diag(st).real.tolist()}
         if np.abs(st - want).max() > 1e-7:
-            res.fail("commuting:closed-form d=%d sd=%s T=%.3g" % (d, case["desc"]["sd"], case["T"]),
+            res.fail("commuting:closed-form %s" % what,
                      dict(payload, error=float(np.abs(st - want).max())))
         if first is None:
             first = st
         elif np.abs(st - first).max() > 1e-9:
-            res.fail("commuting:depends-on-n d=%d sd=%s T=%.3g" % (d, case["desc"]["sd"], case["T"]),
+            res.fail("commuting:depends-on-n %s" % what,
                      dict(payload, error=float(np.abs(st - first).max())))
         check_physical(res, "commuting", st, payload)
+
+
+def repeated_eigenvalue_cases():
+    """coupling operators with repeated eigenvalues; H commutes with S in every case"""
+    def c(z):
+        return [[[complex(x).real, complex(x).imag] for x in row] for row in z]
+    h3 = np.diag([0.5, 0.1, -0.5])
+    h3_block = np.array([[0.4, 0.3, 0.0], [0.3, -0.2, 0.0], [0.0, 0.0, 0.1]])
+    h3_block_c = np.array([[0.4, 0.3j, 0.0], [-0.3j, -0.2, 0.0], [0.0, 0.0, 0.1]])
+    h4 = np.diag([0.5, 0.1, -0.5, 0.3])
+    h2_c = np.array([[0.3, 0.2 - 0.4j], [0.2 + 0.4j, -0.3]])
+    h3_c = np.array([[0.2, 0.1 + 0.3j, 0.0], [0.1 - 0.3j, -0.1, 0.25j], [0.0, -0.25j, 0.3]])
+    rows = [("S=diag(1,1,-1) diagonal H", h3, [1.0, 1.0, -1.0], 0.3, 5.0, 2.1),
+            ("S=diag(1,-1,1) diagonal H", h3, [1.0, -1.0, 1.0], 0.2, 3.0, 0.7),
+            ("S=diag(1,1,-1) H real inside the block", h3_block, [1.0, 1.0, -1.0], 0.3, 5.0, 2.1),
+            ("S=diag(.5,.5,0) H complex inside the block", h3_block_c, [0.5, 0.5, 0.0], 0.4, 4.0, 1.0),
+            ("S=diag(1,0,0,-1) dim 4", h4, [1.0, 0.0, 0.0, -1.0], 0.3, 5.0, 1.3),
+            ("S=0 with a bath, complex H", h2_c, [0.0, 0.0], 0.5, 4.0, 0.9),
+            ("S=0.7*identity, complex H dim 3", h3_c, [0.7, 0.7, 0.7], 0.5, 4.0, 0.9)]
+    out = []
+    for name, H, o, alpha, wc, T in rows:
+        d = len(o)
+        desc = {"d": d, "n": 4, "T": T, "system": "commuting", "coupling": "repeated", "alpha": alpha,
+                "sd": "ohmic-exp", "sd_params": {"kind": "ohmic-exp", "wc": wc}, "H": c(H), "o": o,
+                "name": name}
+        out.append((name, case_from_desc(desc)))
+    return out
 
 
 def oracle_general(res, case):
@@ -408,7 +469,8 @@ def replay_case(res, payload):
         desc = fi["case"]
         oracle_general(res, case_from_desc(desc))
     elif key.startswith("commuting"):
-        oracle_commuting(res, case_from_desc(fi["case"]), steps=(fi.get("n_steps", 2), 2, 5))
+        tag = key.split(" ", 1)[1] if "repeated eigenvalues" in key else None
+        oracle_commuting(res, case_from_desc(fi["case"]), steps=(fi.get("n_steps", 2), 2, 5), tag=tag)
     else:
         res.notes.append("replay: no oracle for key %r" % key)
     return len(res.failing) > before
@@ -438,6 +500,10 @@ def search(res):
                              [rng.gauss(0, 1) for _ in range(d)], 0.0, "random-complex")
     # (2) commuting models: closed form, independence of n
     oracle_commuting(res, fixed_commuting_case())
+    # (2b) coupling operators with repeated eigenvalues (merged into one bond index by the backend)
+    for name, case in repeated_eigenvalue_cases():
+        oracle_commuting(res, case, steps=(2, 4), tag="repeated eigenvalues: " + name)
+    oracle_zero_coupling(res, 0.5 * sy + 0.3 * sz, 0.8, 4, [0.5, 0.5], 0.0, "0.5sy+0.3sz,S=0.5*identity")
     for i in range(5):
         d = rng.choice([2, 3, 4])
         oracle_commuting(res, gen_case(rng, "quick", {"d": d, "hkind": "diagonal", "coupling": "generic",
@@ -453,14 +519,15 @@ def run(tier, seed, replay):
     res.rule = (
         "random Gibbs models: d in {2,3} (thorough also 4), n_steps 2..5 (thorough ..6 for d=2, ..3 for d=4), T in [0.2,3], Hamiltonian "
         "complex Hermitian / real symmetric / diagonal, diagonal coupling generic / degenerate / "
-        "absent, spectral densities ohmic-exponential, superohmic-gaussian, ohmic-hard, custom; 1-3 "
+        "absent (forced: repeated eigenvalues adjacent and not, d=4, zero operator, identity multiple), spectral densities ohmic-exponential, superohmic-gaussian, ohmic-hard, custom; 1-3 "
         "compute() calls per object.  The REAL backend tensors (prop, the factor tables built from "
         "the real coefficient function and operator tuple) are shipped as exact rationals; Lean "
         "evaluates `stored`/`backendData` (orientation and loop data regenerated from the source) and "
         "they are compared to the real dynamics, get_state(), backend.data (identity and random "
         "initial array) to 1e-8 relative; the hypotheses of gibbs_hermitian / gibbs_commuting are "
         "evaluated on the same tensors; coeffs(k) vs the eta cells of the real eta_function (1e-9); "
-        "time step, labels, step counter and len(data) after repeated compute() exactly.  "
+        "time step, labels, step counter and len(data) after repeated compute() exactly; "
+        "TIBaseBackend._unique (indices, projection, column sums) vs its Lean model exactly.  "
         "Non-trivial = not (zero coupling and diagonal H); distinct = distinct case description.")
     res.assumptions = [
         "exact arithmetic; float round-off, SVD truncation (epsrel 1e-13) and QUADPACK error enter "
